@@ -155,7 +155,19 @@ func evalC16(c c16Case, o *Obs) error {
 	var b *bchutil.Block
 	switch c.Ctor {
 	case 0:
-		b = bchutil.NewBlock(msg)
+		if n >= 2 && len(c.Ops)%3 == 0 {
+			// the wrapper is made around a message that is still being assembled; the remaining transactions are
+			// added to the message before any accessor is called (accessors compute lazily, at first use)
+			full := msg.Transactions
+			msg.Transactions = append([]*wire.MsgTx{}, full[:n/2]...)
+			b = bchutil.NewBlock(msg)
+			for _, tx := range full[n/2:] {
+				b.MsgBlock().AddTransaction(tx)
+			}
+			o.Class("C16:message-completed-after-wrapping")
+		} else {
+			b = bchutil.NewBlock(msg)
+		}
 	case 1:
 		if b, err = bchutil.NewBlockFromBytes(append([]byte{}, raw...)); err != nil {
 			return fmt.Errorf("NewBlockFromBytes of a valid block failed: %v", err)
@@ -176,7 +188,16 @@ func evalC16(c c16Case, o *Obs) error {
 		}
 		after()
 	case 3:
-		b = bchutil.NewBlockFromBlockAndBytes(msg, append([]byte{}, raw...))
+		switch len(c.Ops) % 4 {
+		case 0: // the caller has no serialisation at hand: an empty slice, or nil
+			b = bchutil.NewBlockFromBlockAndBytes(msg, []byte{})
+			o.Class("C16:from-block-and-empty-bytes")
+		case 1:
+			b = bchutil.NewBlockFromBlockAndBytes(msg, nil)
+			o.Class("C16:from-block-and-empty-bytes")
+		default:
+			b = bchutil.NewBlockFromBlockAndBytes(msg, append([]byte{}, raw...))
+		}
 	default:
 		return hbug("ctor")
 	}
@@ -310,6 +331,10 @@ func evalC16(c c16Case, o *Obs) error {
 				if l.TxStart < 0 || l.TxLen < 0 || l.TxStart+l.TxLen > len(full) || !bytes.Equal(full[l.TxStart:l.TxStart+l.TxLen], txRaw[i]) {
 					return fmt.Errorf("%s: location %d (%d,%d) does not delimit transaction %d's serialisation", via, i, l.TxStart, l.TxLen, i)
 				}
+			}
+			for i := range locs { // the returned list is the caller's (e.g. to turn it into file offsets)
+				locs[i].TxStart += 1000003
+				locs[i].TxLen = -1
 			}
 		case "sibling":
 			// another block of similar size is created and used in between: blocks must not share state
